@@ -90,11 +90,12 @@ TryGetPreferTypes(g, s) ==
   IF r.t # "mod" THEN r
   ELSE LET sl == g.slots[r.s] IN
        IF sl.cls = "js" /\ IsOk(sl.tdep) THEN TryGet(g, sl.tdep.ok) ELSE r
-\* specifiers(): slots, then redirect sources whose *raw* target has a slot
+\* specifiers(): slots, then redirect sources whose resolved target has a slot
+\* (after the fix of F3 the target is followed with resolve(); before, the raw target was looked up)
 SpecifiersCoded(g) ==
   { <<s, LookupAt(g, s)>> : s \in { x \in DOMAIN g.slots : g.slots[x].k # "pending" } }
-  \cup { <<s, LookupAt(g, g.redirects[s])>> :
-          s \in { x \in DOMAIN g.redirects : HasSlot(g, g.redirects[x]) /\ g.slots[g.redirects[x]].k # "pending" } }
+  \cup { <<s, LookupAt(g, Resolve(g, g.redirects[s]))>> :
+          s \in { x \in DOMAIN g.redirects : HasSlot(g, Resolve(g, g.redirects[x])) /\ g.slots[Resolve(g, g.redirects[x])].k # "pending" } }
 \* declarative listing: every slot, and every redirect source with what its chain reaches
 SpecifiersDecl(g) ==
   { <<s, LookupAt(g, s)>> : s \in { x \in DOMAIN g.slots : g.slots[x].k # "pending" } }
